@@ -5,7 +5,7 @@ import AmVerif.Proofs.Leb128
   `parseChunk`, what a successful parse has read, `loadChunks`/`loadFile` on concatenations and cuts
   of well-formed chunks, and the single-position-change analysis behind C14.
 
-  `Sha256.sha256` and `Inflate.inflate` are opaque here, with one exception: `sha256_length`
+  `Sha256.sha256` and `Inflate.inflateExact` are opaque here, with one exception: `sha256_length`
   (the digest is 32 bytes long), a structural fact needed because the stored checksum is the
   first four digest bytes.  No cryptographic or compression property is used.
 -/
@@ -81,7 +81,7 @@ theorem parseChunk_encodeWith_plain (bodyOk : Nat → Bytes → Bool) (cks : Byt
 theorem parseChunk_encodeWith_compressed (bodyOk : Nat → Bytes → Bool) (cks : Bytes)
     (hc : cks.length = 4) (data rest : Bytes) (hd : data.length < 2 ^ 64) :
     parseChunk bodyOk (encodeChunkWith cks 2 data ++ rest) =
-      match Inflate.inflate data with
+      match Inflate.inflateExact data with
       | none => .error .invalid
       | some dec =>
         if bodyOk 1 dec then .ok (⟨2, cks, data, dec, chunkHash 1 dec⟩, rest) else .error .invalid := by
@@ -89,7 +89,7 @@ theorem parseChunk_encodeWith_compressed (bodyOk : Nat → Bytes → Bool) (cks 
   rw [parseHeader_encodeWith cks hc 2 (by omega) data rest hd]
   simp only [Consts.CHUNK_TYPE_COMPRESSED, Consts.CHUNK_TYPE_CHANGE, if_true, List.take_left,
     List.drop_left]
-  cases Inflate.inflate data <;> rfl
+  cases Inflate.inflateExact data <;> rfl
 
 theorem take_append_ge {α : Type} (a b : List α) (k : Nat) (h : a.length ≤ k) :
     (a ++ b).take k = a ++ b.take (k - a.length) := by
@@ -197,7 +197,7 @@ theorem parseChunk_ok_inv {bodyOk : Nat → Bytes → Bool} {input : Bytes} {ch 
     input = encodeChunkWith ch.checksum ch.ty ch.data ++ rest ∧
     ch.checksum.length = 4 ∧ ch.ty ≤ 3 ∧ ch.data.length < 2 ^ 64 ∧
     ((ch.ty ≠ 2 ∧ ch.body = ch.data ∧ ch.hash = chunkHash ch.ty ch.data ∧ bodyOk ch.ty ch.data = true) ∨
-     (ch.ty = 2 ∧ Inflate.inflate ch.data = some ch.body ∧ ch.hash = chunkHash 1 ch.body ∧
+     (ch.ty = 2 ∧ Inflate.inflateExact ch.data = some ch.body ∧ ch.hash = chunkHash 1 ch.body ∧
         bodyOk 1 ch.body = true)) := by
   unfold parseChunk at hp
   split at hp
@@ -253,7 +253,7 @@ def Stored.chunk : Stored → Chunk
 def Stored.WF (bodyOk : Nat → Bytes → Bool) : Stored → Prop
   | .plain ty data => ty ≤ 3 ∧ ty ≠ 2 ∧ data.length < 2 ^ 64 ∧ bodyOk ty data = true
   | .compressed data dec =>
-      data.length < 2 ^ 64 ∧ Inflate.inflate data = some dec ∧ bodyOk 1 dec = true
+      data.length < 2 ^ 64 ∧ Inflate.inflateExact data = some dec ∧ bodyOk 1 dec = true
 
 /-- a well-formed stored *uncompressed* chunk, as a predicate on bytes -/
 def WFChunk (bodyOk : Nat → Bytes → Bool) (c : Bytes) : Prop :=
@@ -845,7 +845,7 @@ theorem loadFile_ok_first_read {bodyOk : Nat → Bytes → Bool} {mode : OnParti
     ∃ ch rest more, chunks = ch :: more ∧
       inp = encodeChunkWith ch.checksum ch.ty ch.data ++ rest ∧
       ch.hash = Sha256.sha256 ch.hashed ∧ ch.hash.take 4 = ch.checksum ∧
-      (ch.ty ≠ 2 → ch.body = ch.data) ∧ (ch.ty = 2 → Inflate.inflate ch.data = some ch.body) := by
+      (ch.ty ≠ 2 → ch.body = ch.data) ∧ (ch.ty = 2 → Inflate.inflateExact ch.data = some ch.body) := by
   obtain ⟨ch, rest, more, hp, hv, rfl⟩ := loadFile_ok_first h hne
   obtain ⟨einp, -, -, -, hcase⟩ := parseChunk_ok_inv hp
   have hv' : ch.hash.take 4 = ch.checksum := by simpa [Chunk.checksumValid] using hv
